@@ -3,6 +3,7 @@ import GrinVerif.Model.Codec
 import GrinVerif.Model.CodecConn
 import GrinVerif.Model.CodecGlue
 import GrinVerif.Model.CodecSend
+import GrinVerif.Model.CodecPeers
 import GrinVerif.Model.SerBlock
 import GrinVerif.Model.DecSer
 /-! Driver glue for the `codec` domain (line protocol handler): C11 decoder lines and C19 framing lines.
@@ -953,6 +954,44 @@ def handleMore (args : List String) (impl : String) : Option Verdict :=
       | .refused e => showHs (.error e)
       | .writeTimeout => "err Timeout"
     if dir = "accept" ∨ dir = "initiate" then some (cmpModel m impl) else some .unknown
+  | ["bcast", plan] =>
+    -- `Peers::broadcast_header` over the connected peers: s = send goes out, x = suppressed (the source), f = fails
+    let cs := if plan = "-" then [] else plan.toList
+    let rs : List (Nat × SendRes) := cs.zipIdx.map fun (c, i) =>
+      (i, if c = 's' then SendRes.sent else if c = 'x' then .suppressed else .failed)
+    let (_, removed) := broadcast rs
+    let recv := String.ofList (cs.map fun c => if c = 's' then '1' else '0')
+    some (cmpModel s!"before:{cs.length};received:{if cs.isEmpty then "-" else recv};after:{cs.length - removed.length}" impl)
+  | ["pstore", "seq"] =>
+    let now : Int := 1000
+    let showE : Except PeersErr Unit → String
+      | .ok _ => "ok" | .error .notFound => "StoreNotFound" | .error .notBanned => "PeerNotBanned" | .error .peerNotFound => "PeerNotFound"
+    let showU : Except PeersErr PData → String
+      | .ok _ => "ok" | .error .notFound => "StoreNotFound" | .error .notBanned => "PeerNotBanned" | .error .peerNotFound => "PeerNotFound"
+    let b : Bool → String := fun x => if x then "1" else "0"
+    -- the connected peer: a fresh `Healthy` record
+    let c0 : Option PData := some { flags := .healthy, lastBanned := 0, lastAttempt := now }
+    let (c1, steps, r1) := banPeer now c0 true
+    let u1 := unbanPeer now c1
+    let c2 : Option PData := match u1 with | .ok d => some d | .error _ => c1
+    -- the address known from the store only (added as banned, then unbanned): `Healthy`
+    let s0 : Option PData := some { flags := .healthy, lastBanned := now, lastAttempt := now }
+    let (s1, _, r2) := banPeer now s0 false
+    let (n1, _, r3) := banPeer now none false
+    let out := [b (storeIsBanned c0), showU (unbanPeer now c0), showE r1,
+                (if steps.contains "send_ban_reason" then s!"frame:{GV.Gen.Msg.T_BanReason}" else "frame:-"), b (storeIsBanned c1),
+                (if steps.contains "remove" then "map:0" else "map:1"), s!"peerbanned:{b (steps.contains "set_banned")}",
+                showU u1, b (storeIsBanned c2), showU (unbanPeer now c2),
+                showE r2, b (storeIsBanned s1), showE r3, b (storeIsBanned n1), showU (unbanPeer now n1)]
+    some (cmpModel (";".intercalate out) impl)
+  | ["stoprace", _k] => some (cmpSpec "finished" impl)
+  | ["stopmid"] =>
+    -- the `stopped` flag is read at the top of the reader loop only: the frame in flight is completed and handed
+    -- over, nothing after it; `Peer::is_connected` is not touched by `stop`
+    some (cmpModel s!"inflight:1;after:0;connected:{if peerIsConnected false true true true then 1 else 0}" impl)
+  | ["deadconn"] =>
+    -- the reader refused a frame and closed; the Peer's state is untouched, the writer thread and its channel live on
+    some (cmpModel s!"closed:1;is_connected:{if peerIsConnected false true false false then 1 else 0};send:ok" impl)
   | ["hstime", dir, g, sched] =>
     match parseHex g, parseSched sched with
     | some g, some sc =>
